@@ -23,6 +23,8 @@ pub enum Op1 {
     FoldSum, FoldAssocSum, ReduceMax, ReduceAssocMax, AddState,
     /// a replay loop nested inside a loop body
     Nested(i64, i64, Vec<Op1>),
+    /// identity, but the user function panics on the first element whose value is congruent to this modulo 7 (C20)
+    PanicAt(i64),
 }
 
 #[derive(Clone, Copy, Debug, PartialEq)]
@@ -67,6 +69,7 @@ impl Op1 {
             Op1::ReduceMax => "OReduceMax".into(), Op1::ReduceAssocMax => "OReduceAssocMax".into(),
             Op1::AddState => "OAddState".into(),
             Op1::Nested(n, lim, body) => format!("(ONested {} {} {})", z(*n), z(*lim), ops_coq(body)),
+            Op1::PanicAt(_) => "(OMapAdd 0)".into(),
         }
     }
 }
@@ -144,6 +147,7 @@ fn apply1(s: DynStream<P>, o: &Op1, state: &StateGet) -> DynStream<P> {
         Op1::ReduceMax => erase(s.reduce(pmax)),
         Op1::ReduceAssocMax => erase(s.reduce_assoc(pmax)),
         Op1::AddState => { let st = state.clone(); erase(s.map(move |x: P| (x.0, x.1 + st.get()))) }
+        Op1::PanicAt(v) => { let v = *v; let tag = RUN_TAG.with(|t| t.get()); erase(s.map(move |x: P| { if x.1.rem_euclid(7) == v { FIRED_TAGS.lock().unwrap().insert(tag); panic!("injected user-function panic"); } x })) }
         Op1::Nested(n, limit, body) => {
             let (body, limit) = (body.clone(), *limit);
             let st = erase(s.shuffle()).replay(
@@ -257,6 +261,12 @@ impl Mode {
 }
 
 static RUN_ID: AtomicU64 = AtomicU64::new(1);
+// which runs had their injected panic fire (workers of an earlier run may still be unwinding
+// while the next run starts, so the flag is per run, captured when the job is built)
+pub static FIRED_TAGS: std::sync::Mutex<std::collections::BTreeSet<u64>> = std::sync::Mutex::new(std::collections::BTreeSet::new());
+thread_local! {
+    pub static RUN_TAG: std::cell::Cell<u64> = const { std::cell::Cell::new(0) };
+}
 
 fn remote_config(cores: &[u64], host_id: u64, run: u64) -> RuntimeConfig {
     let mut toml = String::new();
@@ -388,4 +398,77 @@ pub fn random_deploy(rng: &mut Rng) -> Deploy {
 }
 pub fn random_mode(rng: &mut Rng) -> Mode {
     match rng.below(6) { 0 => Mode::Single, 1 => Mode::Fixed(1), 2 => Mode::Fixed(3), 3 => Mode::Fixed(1024), 4 => Mode::Adaptive(1024, 50), _ => Mode::Adaptive(4, 5) }
+}
+
+/// What each host observed in a run with an injected panic.
+#[derive(Debug, Clone)]
+pub struct HostObs { pub host: u64, pub failed: bool, pub published: bool }
+#[derive(Debug)]
+pub enum CrashOutcome { Finished { fired: bool, hosts: Vec<HostObs>, result: Option<Vec<P>> }, Hang, Rejected }
+
+/// Like [`run`], but keeps per-host observations: did `execute_blocking` fail, did the sink
+/// handle hold a result afterwards.
+pub fn run_crash(pipe: &Pipe, deploy: &Deploy, mode: Mode, watchdog: Duration) -> CrashOutcome {
+    let run = RUN_ID.fetch_add(1, Ordering::SeqCst) + (std::process::id() as u64 % 97) * 131;
+    let hosts = match deploy { Deploy::Local(_) => 1, Deploy::Remote(c) => c.len() as u64 };
+    let (tx, rx) = mpsc::channel::<(u64, Result<(bool, Option<Vec<P>>), String>)>();
+    for h in 0..hosts {
+        let (pipe, deploy, tx) = (pipe.clone(), deploy.clone(), tx.clone());
+        std::thread::spawn(move || {
+            let cfg = match &deploy { Deploy::Local(p) => RuntimeConfig::local(*p).unwrap(), Deploy::Remote(c) => remote_config(c, h, run) };
+            RUN_TAG.with(|t| t.set(run));
+            let built = crate::script::catch(move || {
+                let env = StreamContext::new(cfg);
+                let out = build(&env, &pipe, mode.batch()).collect_vec();
+                (env, out)
+            });
+            let r = match built {
+                Err(m) => Err(m),
+                Ok((env, out)) => {
+                    let failed = crate::script::catch(move || env.execute_blocking()).is_err();
+                    Ok((failed, out.get()))
+                }
+            };
+            let _ = tx.send((h, r));
+        });
+    }
+    drop(tx);
+    let mut obs = vec![];
+    let mut result = None;
+    for _ in 0..hosts {
+        match rx.recv_timeout(watchdog) {
+            Ok((h, Ok((failed, res)))) => { obs.push(HostObs { host: h, failed, published: res.is_some() }); if res.is_some() { result = res; } }
+            Ok((_, Err(_))) => return CrashOutcome::Rejected,
+            Err(_) => return CrashOutcome::Hang,
+        }
+    }
+    obs.sort_by_key(|o| o.host);
+    // give straggling workers of THIS run a moment to reach the panicking function
+    let fired = FIRED_TAGS.lock().unwrap().contains(&run);
+    CrashOutcome::Finished { fired, hosts: obs, result }
+}
+
+/// acyclic pipelines only (C20), with one `PanicAt` inserted at a random position
+pub fn random_acyclic_with_panic(rng: &mut Rng) -> Pipe {
+    fn strip_loops(p: Pipe) -> Pipe {
+        match p {
+            Pipe::Replay(q, _, _, _) | Pipe::Iterate(q, _, _, _, _) => strip_loops(*q),
+            Pipe::Op(q, o) => Pipe::Op(Box::new(strip_loops(*q)), o),
+            Pipe::Join(l, r, v, s, lo) => Pipe::Join(Box::new(strip_loops(*l)), Box::new(strip_loops(*r)), v, s, lo),
+            Pipe::Merge(l, r) => Pipe::Merge(Box::new(strip_loops(*l)), Box::new(strip_loops(*r))),
+            Pipe::Split(q, a, b, v) => Pipe::Split(Box::new(strip_loops(*q)), a, b, v),
+            s => s,
+        }
+    }
+    let p = strip_loops(random_pipe(rng, 2));
+    // the trigger value: one of the source values most of the time, sometimes a value nobody has
+    let trigger = if rng.chance(1, 6) { -777 } else { rng.range(0, 6) };
+    // insert right after a random prefix of the outermost op chain
+    fn insert(p: Pipe, depth: u64, trigger: i64) -> Pipe {
+        match p {
+            Pipe::Op(q, o) if depth > 0 => Pipe::Op(Box::new(insert(*q, depth - 1, trigger)), o),
+            other => Pipe::Op(Box::new(other), Op1::PanicAt(trigger)),
+        }
+    }
+    insert(p, rng.below(4), trigger)
 }
